@@ -39,6 +39,31 @@ GT = 'lib/gettext.py'
 CI = 'lib/check/__init__.py'
 MISC = 'lib/misc.py'
 TIES = {
+ 'checkload': {
+  'translators': ['checkload'], 'module': 'I18n.Props.C01Tie', 'tests': ['tests/test_misc.py'],
+  'edits': {
+   # mutants of tools/checks/c01_mutants.py inside Checker.check
+   'm10-stat-error-narrowed': ed('lib/check/__init__.py', ("            os.stat(self.path)\n        except OSError as exc:", "            os.stat(self.path)\n        except FileNotFoundError as exc:")),
+   'm09-retry-with-ascii-for-mo': ed('lib/check/__init__.py', ("file = constructor(self.path, encoding='ISO-8859-1')", "file = constructor(self.path, encoding=('ASCII' if is_binary else 'ISO-8859-1'))")),
+   'm19-retry-with-ascii-for-pot': ed('lib/check/__init__.py', ("file = constructor(self.path, encoding='ISO-8859-1')", "file = constructor(self.path, encoding=('ASCII' if is_template else 'ISO-8859-1'))")),
+   # further one-line changes
+   'loader-oserror-narrowed': ed('lib/check/__init__.py', ("        except OSError as exc:\n            message = str(exc)", "        except FileNotFoundError as exc:\n            message = str(exc)")),
+   'mo-syntax-handler-dropped': ed('lib/check/__init__.py', ("        except polib4us.moparser.SyntaxError as exc:\n            self.tag('invalid-mo-file', tags.safestr(exc))\n            return\n", "")),
+   'bare-raise-dropped': ed('lib/check/__init__.py', ("                self.tag('syntax-error-in-po-file', *message_parts)\n                return\n            raise\n", "                self.tag('syntax-error-in-po-file', *message_parts)\n                return\n            return\n")),
+   'errno-test-inverted': ed('lib/check/__init__.py', ("            if exc.errno is not None:\n                self.tag('os-error', tags.safestr(exc.strerror))\n                return\n            elif", "            if exc.errno is None:\n                self.tag('os-error', tags.safestr(exc.strerror))\n                return\n            elif")),
+   'finally-to-after': ed('lib/check/__init__.py', ("        finally:\n            if broken_encoding:", "        if True:\n            if broken_encoding:")),
+   'retry-forgets-flag': ed('lib/check/__init__.py', ("                broken_encoding = exc\n", "                pass\n")),
+   'stages-swapped': ed('lib/check/__init__.py', ("        self.check_language(ctx)\n        self.check_plurals(ctx)\n", "        self.check_plurals(ctx)\n        self.check_language(ctx)\n")),
+   'gmo-not-binary': ed('lib/check/__init__.py', ("elif extension in {'.mo', '.gmo'}:", "elif extension in {'.mo'}:")),
+   'pot-not-template': ed('lib/check/__init__.py', ("            constructor = polib.pofile\n            is_template = True\n", "            constructor = polib.pofile\n")),
+   'unknown-type-continues': ed('lib/check/__init__.py', ("            self.tag('unknown-file-type')\n            return\n", "            self.tag('unknown-file-type')\n")),
+   'seeded/X1-a': seeded('X1-a'),
+   # behaviour-preserving
+   'bp-comment': ed('lib/check/__init__.py', ("        broken_encoding = False\n        try:\n            try:", "        broken_encoding = False  # set by the retry\n        try:\n            try:")),
+   'bp-rename-local': ed('lib/check/__init__.py', ("                begin = max(broken_encoding.start - 40, 0)\n                end = broken_encoding.start + 40\n                s = s[begin:end]", "                lo = max(broken_encoding.start - 40, 0)\n                hi = broken_encoding.start + 40\n                s = s[lo:hi]")),
+   'bp-elif-to-else-if': ed('lib/check/__init__.py', ("        elif extension == '.pot':\n            constructor = polib.pofile\n            is_template = True\n        elif extension in {'.mo', '.gmo'}:", "        elif extension == '.pot':\n            is_template = True\n            constructor = polib.pofile\n        elif extension in {'.mo', '.gmo'}:")),
+   'bp-not-broken': ed('lib/check/__init__.py', ("        if broken_encoding:\n            ctx.encoding = None", "        if broken_encoding:\n            ctx.encoding = None\n        pass")),
+  }},
  'chkplurals': {
   'translators': ['chkplurals', 'gettextpf'], 'module': 'I18n.Props.C07ChkTie', 'tests': ['tests/test_misc.py'],
   'edits': {
